@@ -12,12 +12,14 @@ import (
 	"flag"
 	"fmt"
 	"io"
+	"io/ioutil"
 	"math/rand"
 	"net"
 	"os"
 	"sort"
 	"strconv"
 	"sync"
+	"syscall"
 	"time"
 
 	"github.com/xelaj/mtproto/internal/mode"
@@ -154,6 +156,19 @@ func c08Execute(id int, sc c08Scenario, rng *rand.Rand, pause time.Duration) c08
 		}
 		defer c.Close()
 		c.(*net.TCPConn).SetNoDelay(true)
+		drained := make(chan struct{})
+		if sc.level == "mode" {
+			// the connection is full duplex: whatever the reading side writes meanwhile is taken; the stream ends with an
+			// orderly half-close, the connection is closed when the other side has closed too
+			go func() { io.Copy(ioutil.Discard, c); close(drained) }()
+			defer func() {
+				c.(*net.TCPConn).CloseWrite()
+				select {
+				case <-drained:
+				case <-time.After(5 * time.Second):
+				}
+			}()
+		}
 		if sc.level == "transport" {
 			ann := make([]byte, map[string]int{"abridged": 1, "intermediate": 4}[sc.md])
 			io.ReadFull(c, ann)
@@ -200,6 +215,26 @@ func c08Execute(id int, sc c08Scenario, rng *rand.Rand, pause time.Duration) c08
 			if v, _ := mode.GetVariant(m); (v == mode.Abridged) != (sc.md == "abridged") {
 				run.Got = append(run.Got, c08Got{K: "err", E: "detected the other mode"})
 				return
+			}
+			if id%2 == 0 {
+				// the other direction is in use at the same time (requests go out while answers come in, on one mode object)
+				stopW := make(chan struct{})
+				defer close(stopW)
+				go func() {
+					defer func() { recover() }()
+					wr := rand.New(rand.NewSource(int64(id)))
+					for k := 0; k < 4000; k++ {
+						select {
+						case <-stopW:
+							return
+						default:
+						}
+						if m.WriteMsg(randBytes(wr, 4*(1+wr.Intn(40)))) != nil {
+							return
+						}
+						time.Sleep(200 * time.Microsecond)
+					}
+				}()
 			}
 			for len(run.Got) < len(sc.lens)+3 {
 				b, err := m.ReadMsg()
@@ -320,6 +355,9 @@ func init() {
 		pauseUs := fs.Int("pause", 600, "microseconds between segments")
 		workers := fs.Int("workers", 16, "")
 		fs.Parse(args)
+		// a reader that takes payload bytes for a length announces gigabytes: the address space is limited so that such a
+		// reader ends in the Go runtime's own out-of-memory report (with its stack) instead of the kernel's silent kill
+		syscall.Setrlimit(syscall.RLIMIT_AS, &syscall.Rlimit{Cur: 10 << 30, Max: 10 << 30})
 		rng := rand.New(rand.NewSource(*seed))
 		pause := time.Duration(*pauseUs) * time.Microsecond
 		var scs []c08Scenario
@@ -387,6 +425,10 @@ func init() {
 			add("mode", md, []int{504, 508, 512, 16}, nil)
 			add("mode", md, []int{0, 0, 4, 0}, nil)
 			add("mode", md, []int{12, 600, 4, 40}, nil)
+			// a long frame, then short ones: nothing of a header outlives its frame
+			add("mode", md, []int{1024, 8}, nil)
+			add("mode", md, []int{4, 2048, 8, 66000, 12, 4}, nil)
+			add("mode", md, []int{262144, 4, 300000, 8}, nil)
 			if *big {
 				add("mode", md, []int{1 << 20, 8}, nil)
 				add("mode", md, []int{(1 << 24) - 4}, nil)
